@@ -16,7 +16,11 @@ queues the scanned extent and the replace branch queues the existing extent. Not
 nested recoveries; that repairs touch no live block (value-level).
 """
 DECIDED = ['journal position continuity: decoded (generation, slot) always restored; next = (generation + 1, other slot); advanced only after write + flush', "replay: markers before clear, clear on Ok edge", "post-scan retirement is journalled and fed from retired_extents",
-           "winner rule: strict `existing.timestamp > scanned.timestamp` loses; right extent queued on each branch"]
+           "winner rule: strict `existing.timestamp > scanned.timestamp` loses; right extent queued on each branch",
+           'a marker length is refused only for zero or beyond-device (coalesced chains of any length are accepted)',
+           'recovery frees / queues an extent with the on-disk length of that same generation',
+           'journal position restored exactly as decoded',
+           'expired winners are retired in a later journal transaction than stale duplicates']
 NOT_DECIDED = ["contents equality across recoveries", "repairs touch only dead blocks (value-level)"]
 ASSUMPTIONS = []
 
